@@ -45,3 +45,97 @@ def registry_names():
     bad2 = [d for d in diameter_avps if not isinstance(d.get("name"), str) or not isinstance(d.get("id"), int)]
     out.append(("definitions-names-are-str", not bad2, bad2[:5]))
     return out
+
+
+# =========================================================================================
+#  registry lookup with a symbolic key, and the schematic dictionary-class constructor
+# =========================================================================================
+import z3                                                             # noqa: E402
+from pyvc.values import SObj, SBytes, SExc, BSEQ, bytes_term, is_sym  # noqa: E402
+from pyvc.seqs import SAbstractClass                                  # noqa: E402
+from pyvc.models import digits_value                                  # noqa: E402
+from bromelia.exceptions import (DataTypeError, AVPAttributeValueError, AVPParsingError,     # noqa: E402
+                                 DiameterAvpError)
+from contracts.common import AVP_ELEM                                 # noqa: E402
+
+# uninterpreted description of the registry: is (vendor?, code) registered; default flags of the class
+REGISTERED = z3.Function("registered", z3.BoolSort(), z3.IntSort(), z3.IntSort(), z3.BoolSort())
+DFLAGS = z3.Function("default_flags", z3.BoolSort(), z3.IntSort(), z3.IntSort(), z3.IntSort())
+CTOR_ERRORS = (DataTypeError, AVPAttributeValueError, AVPParsingError, DiameterAvpError)
+
+
+def _key_terms(ctx, code, vendor):
+    from pyvc.models import _m_int_from_bytes
+    from pyvc.values import int_term
+    c = _m_int_from_bytes(ctx, [code, "big"], {})
+    ct = int_term(c)
+    if vendor is None:
+        return z3.BoolVal(False), z3.IntVal(0), ct
+    v = _m_int_from_bytes(ctx, [vendor, "big"], {})
+    return z3.BoolVal(True), int_term(v), ct
+
+
+def _concrete_lookup(code, vendor):
+    key = vendor if vendor is not None else B.VENDOR_ID_DEFAULT if hasattr(B, "VENDOR_ID_DEFAULT") else None
+    table = B.loader._get_load_avps_dictionary()
+    from bromelia.constants import VENDOR_ID_DEFAULT
+    return table[vendor if vendor is not None else VENDOR_ID_DEFAULT][code]
+
+
+def dict_ctor(ctx, acls, args, kwargs):
+    """SCHEMATIC CONSTRUCTOR CONTRACT of a registered dictionary class applied to wire data
+    (proved per class under C10, obligations C10/<class>[wire]/...): either one of the library's
+    errors is raised, or the object carries the class's code and vendor (== the lookup key), the
+    class's default flags, and the data unchanged."""
+    data = args[0] if args else kwargs.get("data")
+    ctx.used_contracts.add("C10/schematic-dictionary-constructor")
+    k = ctx.choose(1 + len(CTOR_ERRORS), "ctor-outcome")
+    if k > 0:
+        from pyvc.engine import PyRaise
+        raise PyRaise(SExc(CTOR_ERRORS[k - 1], (ctx.fresh_str("msg"),)))
+    hv, vt, ct = acls.key["terms"]
+    o = SObj(acls.key["shape_cls"], has_dict=True)
+    fl = DFLAGS(hv, vt, ct)
+    ctx.assume_raw(z3.And(fl >= 0, fl <= 255))
+    # V bit set exactly for vendor-specific classes (C10 identity obligation)
+    ctx.assume_raw((fl / 128) % 2 == (1 if acls.key["vendor"] is not None else 0))
+    o.slots["_flags"] = SBytes(elems=[fl])
+    o.slots["_vendor_id"] = acls.key["vendor"]
+    o.slots["_data"] = data
+    o.slots["_padding"] = None
+    o.idict["code"] = acls.key["code"]
+    o.idict["vendor_id"] = acls.key["vendor"]
+    return o
+
+
+def _get_avp_class_effect(ctx, ns):
+    avp = ns["avp"]
+    from pyvc.spec import raw as _raw
+    code = ctx.call_function(_raw, [avp, "code"], {})
+    vendor = ctx.call_function(_raw, [avp, "vendor_id"], {})
+    if not is_sym(code) and (vendor is None or not is_sym(vendor)):
+        try:
+            return _concrete_lookup(bytes(code), None if vendor is None else bytes(vendor))
+        except KeyError as e:
+            ctx.py_raise(KeyError, *e.args)
+    hv, vt, ct = _key_terms(ctx, code, vendor)
+    if ctx.branch(REGISTERED(hv, vt, ct)):
+        from contracts.common import _DictShapeClass
+        return SAbstractClass("dictionary-avp-class",
+                              {"code": code, "vendor": vendor, "terms": (hv, vt, ct),
+                               "shape_cls": _DictShapeClass}, dict_ctor)
+    ctx.py_raise(KeyError, code)
+
+
+@contract("bromelia.base.DiameterAvpLoader.get_avp_class", prop="C10", name="lookup")
+class _GetAvpClass:
+    """returns the class registered under the AVP's (vendor, code), else KeyError.  For a symbolic
+    key the result is 'some registered class for this key' (the registry is a function: table
+    obligation C10/registry-is-a-function); calling it applies the schematic constructor contract."""
+    args = {"self": T.Const(B.loader, path="bromelia.base:loader"), "avp": any_avp_shape()}
+    at_calls = True
+    effect = _get_avp_class_effect
+    proof = "table"
+    assumes = ("DiameterAvpLoader.get_avp_class dispatches by exact (vendor, code) key into the table built "
+               "from DiameterAVP.__subclasses__() (discharged by evaluation: C10/registry-is-a-function, "
+               "C10/registry-dispatch)",)
